@@ -604,7 +604,12 @@ where
             ),
             _ => {
                 let get_next = async {
+                    // New consumers are taken before messages: the write task can request a sync
+                    // on behalf of a consumer as soon as it has been queued for this task and the
+                    // response to that request must not be processed before the consumer has been
+                    // registered here (it would never be told that it is synced).
                     tokio::select! {
+                        biased;
                         maybe_consumer = consumer_stream.next() => {
                             if let Some((consumer, options)) = maybe_consumer {
                                 ReadTaskEvent::NewConsumer(consumer, options)
